@@ -560,6 +560,20 @@ Section Proofs.
   Definition window_ok (S : list E) (after before : option C) (limit : Z) (L : list E) : Prop :=
     NoDup (map cur L) /\ incl L S /\ incl (needed S after before limit) L.
 
+  (** the smallest acceptable window is acceptable (so [window_ok] is satisfiable for every
+      connection and every request) *)
+  Lemma needed_window_ok S after before limit : ordered S ->
+    window_ok S after before limit (needed S after before limit).
+  Proof.
+    intro Ho. pose proof (range_ordered S after before Ho) as HoR.
+    assert (Hn : ordered (needed S after before limit) /\ incl (needed S after before limit) (range S before after)).
+    { unfold needed. destruct (limit >? 0).
+      - split; [apply SSorted_firstn; exact HoR | apply firstn_incl].
+      - rewrite lastn_skipn. split; [apply SSorted_skipn; exact HoR | apply skipn_incl]. }
+    destruct Hn as [Hon Hin]. split; [apply ordered_NoDup_cur; exact Hon|]. split; [|apply incl_refl].
+    intros e He. apply Hin in He. apply range_In in He. tauto.
+  Qed.
+
   Lemma cut_first_shared (R RL : list E) n h1 h2 :
     ordered R -> ordered RL -> incl RL R -> 0 <= n ->
     incl (firstn (Z.to_nat (n + 1)) R) RL ->
@@ -1047,6 +1061,34 @@ Section Proofs.
 
   Lemma await_sync {A} (x : A) : await (Ok (Sync x)) = Ok x.
   Proof. reflexivity. Qed.
+
+  (** totalCount is the size of the connection *)
+  Theorem total_count (a : app C E) edges S ar af bf :
+    app_ok a edges S ->
+    args_rejected (a_first ar) (a_last ar) = false ->
+    decode_arg (a_after ar) EInvalidAfter = Ok af -> decode_arg (a_before ar) EInvalidBefore = Ok bf ->
+    exists page pi, serve a ar = RData page pi (Ok (Z.of_nat (length edges))).
+  Proof.
+    intros Happ Hr Ha Hb. destruct (serve_ok a edges S ar af bf Happ Hr Ha Hb) as [page [sp [Hs _]]].
+    exists page, (Ok sp). rewrite Hs. unfold len. rewrite (connection_length _ _ (proj1 Happ)). reflexivity.
+  Qed.
+
+  (** an arbitrary cursor string is either rejected with an error or treated as some position in
+      the cursor order (in the model; that the Go decoders themselves cannot crash is observed,
+      not proved) *)
+  Theorem arbitrary_cursor (a : app C E) edges S ar :
+    app_ok a edges S ->
+    args_rejected (a_first ar) (a_last ar) = false ->
+    serve a ar = RError EInvalidAfter \/ serve a ar = RError EInvalidBefore \/
+    exists af bf, response_ok S af bf (a_first ar) (a_last ar) (serve a ar).
+  Proof.
+    intros Happ Hr.
+    destruct (decode_arg (a_after ar) EInvalidAfter) as [af|e] eqn:Ha.
+    - destruct (decode_arg (a_before ar) EInvalidBefore) as [bf|e] eqn:Hb.
+      + right. right. exists af, bf. apply (serve_ok a edges S ar af bf Happ Hr Ha Hb).
+      + destruct (invalid_cursor_errors a ar Hr) as [H|H]; [right; eauto | auto | auto].
+    - destruct (invalid_cursor_errors a ar Hr) as [H|H]; [left; eauto | auto | auto].
+  Qed.
 
   (** ** sync or promise: the same answer *)
   Theorem promise_equiv (a1 a2 : app C E) ar :
